@@ -1,12 +1,13 @@
 #!/venv/bin/python
 """import verified seeds from scratch worktrees: tools/import_seeds.py C04 C06 ..."""
 import os, json, shutil, sys
+OFF = int(os.environ.get("SEED_OFFSET", "0"))
 for pid in sys.argv[1:]:
     for i in (1, 2):
         wt = f"/tmp/wt/{pid}"
         if not os.path.exists(f"{wt}/seed{i}_patch.diff"):
             continue
-        sid = f"{pid}-s{i}"
+        sid = f"{pid}-s{i + OFF}"
         d = f"/verif/seeded/{sid}"
         os.makedirs(d, exist_ok=True)
         shutil.copy(f"{wt}/seed{i}_patch.diff", f"{d}/patch.diff")
